@@ -10,7 +10,7 @@ use crate::common::*;
 use nundb::bo::Databases;
 use serde_json::json;
 use std::collections::{BTreeMap, BTreeSet};
-use std::sync::Arc;
+use std::sync::{Arc, Mutex};
 
 #[derive(Clone, Copy, Debug, PartialEq)]
 pub enum Ev {
@@ -238,9 +238,10 @@ pub fn run(tier: &str) -> i32 {
             }
         }
         let counted = std::sync::atomic::AtomicU64::new(0);
+        let panicked: Mutex<Option<String>> = Mutex::new(None);
         std::thread::scope(|sc| {
             for t in 0..4u64 {
-                let (dbs, ops, counted) = (&dbs, &ops, &counted);
+                let (dbs, ops, counted, panicked) = (&dbs, &ops, &counted, &panicked);
                 sc.spawn(move || {
                     let mut rng = Rng::new(r as u64 * 4 + t);
                     let mut pairs: Vec<(u64, usize)> = ops.iter().flat_map(|o| (0..4).map(move |n| (*o, n))).collect();
@@ -248,13 +249,25 @@ pub fn run(tier: &str) -> i32 {
                         pairs.swap(i, rng.below(i + 1));
                     }
                     for (o, n) in pairs {
-                        if dbs.acknowledge_pending_opp(o, &NODES[n].to_string()) {
-                            counted.fetch_add(1, std::sync::atomic::Ordering::SeqCst);
+                        // a panic in the accounting itself (it would also poison the pending map) is a finding, not a harness error
+                        match std::panic::catch_unwind(std::panic::AssertUnwindSafe(|| dbs.acknowledge_pending_opp(o, &NODES[n].to_string()))) {
+                            Ok(true) => {
+                                counted.fetch_add(1, std::sync::atomic::Ordering::SeqCst);
+                            }
+                            Ok(false) => {}
+                            Err(e) => {
+                                panicked.lock().unwrap().get_or_insert(panic_msg(&e));
+                                return;
+                            }
                         }
                     }
                 });
             }
         });
+        if let Some(msg) = panicked.into_inner().unwrap() {
+            v.report(json!({"check": "pending", "problem": "acknowledgement-panicked", "event": "racing-acks"}), json!({"round": r, "panic": msg, "pending_map_poisoned": dbs.pending_opps.is_poisoned()}));
+            break;
+        }
         let left = dbs.pending_opps.read().unwrap().len();
         let c = counted.into_inner();
         if left != 0 || c != 9 {
